@@ -6,7 +6,8 @@
      genpos <name> n <S nP x y..>             -> generators whose positions come from the implementation
      spec <lattice> d nC (k c)..              -> closed_tiling / open_census / degrees on given arrays
      proper nv nE j k.. nCol c..              -> proper_coloring
-     flux <lattice> nU u..                    -> fluxes of all plaquettes for bond variables u *)
+     flux <lattice> nU u..                    -> fluxes of all plaquettes for bond variables u
+     fixture i                                -> the i-th fixed fixture graph translated from the source (Gen/FixturesGen.v) *)
 open Model
 open Hexio
 
@@ -106,6 +107,16 @@ let cmd_flux c =
   | None -> out "flux" "ERR"
   | Some ps -> out "flux" (s_list (fun p -> s_z (flux_of u p)) ps)
 
+let cmd_fixture c =
+  let i = next_z c in
+  match fixture_by_id i with
+  | None -> out "error" "unknown fixture"
+  | Some f ->
+    out_zl f.fx_lat;
+    out "col" (s_list s_z f.fx_col);
+    out "ujk" (s_list s_z f.fx_ujk);
+    out "pos_from_impl" (s_bool f.fx_pos_from_impl)
+
 let cmd_ok c =
   let name = next c in
   match name with
@@ -130,6 +141,7 @@ let () =
           | "proper" -> cmd_proper c
           | "flux" -> cmd_flux c
           | "ok" -> cmd_ok c
+          | "fixture" -> cmd_fixture c
           | _ -> out "error" ("unknown command " ^ cmd))
        with Failure m -> out "error" m);
       print_endline "end")
